@@ -164,11 +164,14 @@ def flagsOk (f : RFlags) : Bool :=
 def RState.tick (s : RState) (dt : Nat) : RState := { s with now := s.now + dt }
 
 /-- everything that is decided before the cache or the network is touched: `flags.Validate`
-(exit 1), `NewHTTPNode` (105), the experiment switch in `NewNode` (exit 1) — in this order -/
+(exit 1), then `NewNode`: `NewHTTPNode` refuses plain http without `--insecure` (105), but
+its error is *replaced* by "Remote taskfiles are not enabled" (exit 1) when the experiment
+is off — the failed constructor leaves a typed-nil `*HTTPNode` in the `Node` interface,
+which still passes the `node.(RemoteNode)` test -/
 def gate (st : Step) : Option Nat :=
   if !flagsOk st.flags then some 1
-  else if !st.url.https && !st.flags.insecure then some 105
   else if !st.flags.experiment then some 1
+  else if !st.url.https && !st.flags.insecure then some 105
   else none
 
 /-- one invocation of `task` on a remote Taskfile -/
